@@ -41,7 +41,11 @@ func (w *c14Walk) next(cmd string, label string) vCall {
 func (w *c14Walk) run(hasCond, hasBefore, hasAfter bool, allow bool) (mustFail, skipped bool) {
 	if !w.upDone {
 		w.upDone = true
+		// every up command runs (once); the context failed to start if ANY of them failed
 		if w.next("up0", "C14.up-runs-first-and-once").Failed {
+			w.upFail = true
+		}
+		if w.next("up1", "C14.up-runs-first-and-once").Failed {
 			w.upFail = true
 		}
 	}
@@ -86,7 +90,7 @@ func VerifC14Hooks(nt, shape int) {
 	vInstallStubs()
 	vAllowOther = false
 	hasCond, hasBefore, hasAfter := shape&1 != 0, shape&2 != 0, shape&4 != 0
-	ctx := NewExecutionContext(nil, "", variables.NewVariables(), []string{"up0"}, []string{"down0"}, []string{"cb0"}, []string{"ca0"})
+	ctx := NewExecutionContext(nil, "", variables.NewVariables(), []string{"up0", "up1"}, []string{"down0"}, []string{"cb0"}, []string{"ca0"})
 	other := NewExecutionContext(nil, "", variables.NewVariables(), []string{"up-other"}, []string{"down-other"}, nil, nil)
 	r, err := NewTaskRunner(WithContexts(map[string]*ExecutionContext{"ctx": ctx, "unused": other}))
 	rt.Assert(err == nil, "C14.runner-created")
